@@ -134,10 +134,8 @@ func (nd *node) dirNames() []string {
 func (nd *node) remove() {
 	nd.children = nil
 
+	// the content is kept : an open file keeps working after its last name is removed.
 	nd.nlink--
-	if nd.nlink == 0 {
-		nd.data = nil
-	}
 }
 
 // setMode sets the permissions of the file node.
